@@ -171,5 +171,24 @@ structure MEnv (σ ρ π : Type) where
   /-- `r.cacheDynamicRoute(key, ps, route)` -/
   cacheDynamic : σ → Bytes → Option π → ρ → σ
 
+/-- what `Router.appendRoute` works on: the checks and the pattern compiler as (possibly panicking) operations
+    that return the updated route, and the tables as an abstract state -/
+structure AEnv (σ ρ : Type) where
+  /-- `route.goodInfo()`: panics on a nil handler, no methods, an unknown method -/
+  goodInfo : ρ → Except Panic Unit
+  /-- `r.appendGroupInfo(route)`: formats the path, adds the group prefix and middleware (handler limit) -/
+  appendGroupInfo : σ → ρ → Except Panic (σ × ρ)
+  name : ρ → Bytes
+  path : ρ → Bytes
+  methods : ρ → List Bytes
+  /-- `r.parseParamRoute(route)`: compiles the pattern; returns the first-segment key ("" = none) -/
+  parseParam : σ → ρ → Except Panic (Bytes × ρ)
+  setNamed : σ → Bytes → ρ → σ
+  setStable : σ → Bytes → ρ → σ
+  getRegular : σ → Bytes → List ρ × Bool
+  setRegular : σ → Bytes → List ρ → σ
+  getIrregular : σ → Bytes → List ρ × Bool
+  setIrregular : σ → Bytes → List ρ → σ
+
 end GoRt
 end Rux
